@@ -2420,9 +2420,16 @@ class FuncListDir(ValueFunc):
         if args.hasArg("include_dirs"):
             include_dirs = args.getBoolean("include_dirs").value
         result = ValueList()
-        self.collectFiles(
-            directory, recursive, include_path, include_dirs, result
-        )
+        try:
+            self.collectFiles(
+                directory, recursive, include_path, include_dirs, result
+            )
+        except Exception:
+            raise CklRuntimeError(
+                ValueString("ERROR"),
+                "Cannot list directory " + directory,
+                pos,
+            )
         return result
 
     def collectFiles(
